@@ -21,6 +21,7 @@ import (
 	"bytes"
 	"context"
 	"encoding/json"
+	"errors"
 	"fmt"
 	"io"
 	"math"
@@ -82,6 +83,73 @@ type storeSpec struct {
 	SPrefix  string  `json:"statsd_prefix"`
 	CPrefix  string  `json:"collectd_prefix"`
 	Metrics  []mSpec `json:"metrics"`
+	// Disturb > 0: before the exports that are judged, the same exporter serves
+	// requests that go wrong - cancelled after Disturb metrics, and written to a
+	// client that fails at its Disturb-th write - on every handler and on the push
+	// writer.  What a failed export leaves behind must not show in the next one.
+	Disturb int `json:"disturb,omitempty"`
+}
+
+// pollCtx is a request context that reports cancellation from its k-th poll on.
+type pollCtx struct {
+	context.Context
+	n, k int
+}
+
+var closedCh = func() chan struct{} { c := make(chan struct{}); close(c); return c }()
+
+func (c *pollCtx) Done() <-chan struct{} {
+	c.n++
+	if c.n > c.k {
+		return closedCh
+	}
+	return nil
+}
+func (c *pollCtx) Err() error {
+	if c.n > c.k {
+		return context.Canceled
+	}
+	return nil
+}
+
+// failRW accepts k writes and fails afterwards.
+type failRW struct {
+	hdr  http.Header
+	k, n int
+}
+
+func (c *failRW) Header() http.Header {
+	if c.hdr == nil {
+		c.hdr = http.Header{}
+	}
+	return c.hdr
+}
+func (c *failRW) WriteHeader(int) {}
+func (c *failRW) Write(b []byte) (int, error) {
+	c.n++
+	if c.n > c.k {
+		return 0, errors.New("c22: client went away")
+	}
+	return len(b), nil
+}
+
+// disturb: odd d = requests cancelled after (d+1)/2 metrics; even d = clients and
+// push connections that fail at their (d/2)-th write.  One kind per store, so
+// that a later well-behaved request of the other kind cannot tidy up after it.
+func disturb(e *exporter.Exporter, d int) {
+	k := (d + 1) / 2
+	for _, h := range []func(http.ResponseWriter, *http.Request){e.HandleVarz, e.HandleGraphite, e.HandleJSON} {
+		if d%2 == 1 {
+			h(&chunkRW{}, httptest.NewRequest("GET", "/x", nil).WithContext(&pollCtx{Context: context.Background(), k: k}))
+		} else {
+			h(&failRW{k: k}, httptest.NewRequest("GET", "/x", nil))
+		}
+	}
+	if d%2 == 0 {
+		for _, f := range []string{"graphite", "statsd", "collectd"} {
+			_ = exporter.VerifC22Push(e, &failRW{k: k}, f)
+		}
+	}
 }
 
 var kindOf = map[string]metrics.Kind{"counter": metrics.Counter, "gauge": metrics.Gauge, "timer": metrics.Timer,
@@ -258,6 +326,9 @@ func export(st *metrics.Store, sp storeSpec) outputs {
 	e, err := exporter.New(context.Background(), st, opts...)
 	if err != nil {
 		panic(err)
+	}
+	if sp.Disturb > 0 {
+		disturb(e, sp.Disturb)
 	}
 	var o outputs
 	req := httptest.NewRequest("GET", "/x", nil)
@@ -742,7 +813,7 @@ func pick(r *vlib.Rand, pct bool, pool []string) string {
 func genStore(r *vlib.Rand, nonfinite, seps bool) storeSpec {
 	q := vlib.Q
 	pct := r.Chance(55)
-	sp := storeSpec{Kind: "store", Host: q(pick(r, pct, hostPool)), Omit: r.Chance(30), Interval: int64(vlib.Pick(r, []int{0, 1, 60, 300})),
+	sp := storeSpec{Kind: "store", Host: q(pick(r, pct, hostPool)), Omit: r.Chance(30), Interval: int64(vlib.Pick(r, []int{0, 1, 60, 300})), Disturb: vlib.Pick(r, []int{0, 0, 1, 1, 2, 3, 4, 5}),
 		GPrefix: q(pick(r, pct, prefixPool)), SPrefix: q(pick(r, pct, prefixPool)), CPrefix: q(pick(r, pct, prefixPool))}
 	nm := 1 + r.Intn(5)
 	used := map[string]bool{}
